@@ -26,6 +26,8 @@ struct Params {
     /// number of inbound queue slots for replies (DEFAULT_MAX_METHOD_RETURN_QUEUED is 8); extra
     /// stray replies are used to fill it
     strays: usize,
+    /// offer "reply to call i followed by 9 stray replies, all in one read" as an event
+    burst: bool,
 }
 
 #[derive(Clone, Debug, PartialEq)]
@@ -36,6 +38,9 @@ enum Env {
     Signal,
     Eof,
     Timer(usize),
+    /// the reply to call i immediately followed by more stray replies than the reply queue
+    /// holds, delivered in a single read
+    BurstReplyThenStrays(usize),
 }
 
 #[derive(Debug)]
@@ -116,6 +121,7 @@ fn scenario(p: Params) -> ExecResult {
     let mut noreply_done_logged = false;
     let mut wire_cursor = 0usize;
     let mut peer_serial = 1000u32;
+    let mut burst_done = false;
     let mut no_timer_reported = false;
     let mut no_timer: Option<String> = None;
 
@@ -180,6 +186,13 @@ fn scenario(p: Params) -> ExecResult {
             if strays < p.strays {
                 menu.push(Env::Stray);
             }
+            if p.burst && !burst_done {
+                for (i, _) in seen.iter() {
+                    if !answered.contains_key(i) {
+                        menu.push(Env::BurstReplyThenStrays(*i));
+                    }
+                }
+            }
             if !signal_sent {
                 menu.push(Env::Signal);
             }
@@ -224,6 +237,35 @@ fn scenario(p: Params) -> ExecResult {
                             Message::error(&call.header(), "a.b.Err").unwrap().build(&("boom",)).unwrap()
                         };
                         link.b2a.push(m.data().bytes(), vec![]);
+                    }
+                    Env::BurstReplyThenStrays(i) => {
+                        burst_done = true;
+                        answered.insert(i, "return");
+                        let serial = seen[&i];
+                        let mk_call = |serial: u32| {
+                            let call = Message::method_call("/p", "X").unwrap().build(&()).unwrap();
+                            let mut bytes = call.data().bytes().to_vec();
+                            bytes[8..12].copy_from_slice(&serial.to_le_bytes());
+                            parse_message(&bytes).unwrap()
+                        };
+                        let mut all = Message::method_return(&mk_call(serial).header())
+                            .unwrap()
+                            .build(&(i as u32,))
+                            .unwrap()
+                            .data()
+                            .bytes()
+                            .to_vec();
+                        for k in 0..9u32 {
+                            all.extend_from_slice(
+                                Message::method_return(&mk_call(800_000 + k).header())
+                                    .unwrap()
+                                    .build(&(99u32,))
+                                    .unwrap()
+                                    .data()
+                                    .bytes(),
+                            );
+                        }
+                        link.b2a.push(&all, vec![]);
                     }
                     Env::Stray => {
                         strays += 1;
@@ -363,6 +405,7 @@ pub fn main(args: &Args) -> i32 {
                 timeout: j["timeout"].as_bool().unwrap_or(false),
                 eof: j["eof"].as_bool().unwrap_or(false),
                 strays: j["strays"].as_u64().unwrap_or(0) as usize,
+                burst: j["burst"].as_bool().unwrap_or(false),
             };
             Some(Box::new(move || scenario(p)))
         });
@@ -373,33 +416,33 @@ pub fn main(args: &Args) -> i32 {
     let scenarios: Vec<(&str, Params, Vec<Option<usize>>)> = vec![
         (
             "two-callers",
-            Params { callers: 2, noreply: false, timeout: false, eof: true, strays: 1 },
+            Params { callers: 2, noreply: false, timeout: false, eof: true, strays: 1, burst: false },
             if quick { vec![Some(5)] } else { vec![Some(7), None] },
         ),
         (
             "two-callers-noreply",
-            Params { callers: 2, noreply: true, timeout: false, eof: false, strays: 0 },
+            Params { callers: 2, noreply: true, timeout: false, eof: false, strays: 0, burst: false },
             if quick { vec![Some(4)] } else { vec![Some(6), Some(7)] },
         ),
         (
             "three-callers",
-            Params { callers: 3, noreply: false, timeout: false, eof: true, strays: 1 },
+            Params { callers: 3, noreply: false, timeout: false, eof: true, strays: 1, burst: false },
             if quick { vec![Some(4)] } else { vec![Some(6), Some(7)] },
         ),
         (
             "timeout-one-caller",
-            Params { callers: 1, noreply: false, timeout: true, eof: true, strays: 1 },
+            Params { callers: 1, noreply: false, timeout: true, eof: true, strays: 1, burst: false },
             vec![None],
         ),
         (
             "timeout-two-callers",
-            Params { callers: 2, noreply: false, timeout: true, eof: false, strays: 0 },
+            Params { callers: 2, noreply: false, timeout: true, eof: false, strays: 0, burst: false },
             if quick { vec![Some(4)] } else { vec![Some(6), Some(7)] },
         ),
         (
             "queue-pressure",
             // more stray replies than the method-return queue holds (8)
-            Params { callers: 2, noreply: false, timeout: false, eof: false, strays: 10 },
+            Params { callers: 2, noreply: false, timeout: false, eof: false, strays: 10, burst: true },
             if quick { vec![Some(4)] } else { vec![Some(6)] },
         ),
     ];
@@ -413,7 +456,7 @@ pub fn main(args: &Args) -> i32 {
             &report,
             &totals,
             name,
-            json!({"callers": p.callers, "noreply": p.noreply, "timeout": p.timeout, "eof": p.eof, "strays": p.strays}),
+            json!({"callers": p.callers, "noreply": p.noreply, "timeout": p.timeout, "eof": p.eof, "strays": p.strays, "burst": p.burst}),
             &plan,
             move || scenario(p),
         );
